@@ -24,8 +24,8 @@ VIT_MAP = {Fraction(0): None, Fraction(1, 4): -2, Fraction(1, 2): -1, Fraction(1
 class SR:
     """one semiring configuration: how spec weights become implementation floats and wire values,
     and how implementation outputs become wire observations"""
-    def __init__(self, name, dtype="float64"):
-        self.name, self.dtype = name, dtype
+    def __init__(self, name, dtype="float64", scale=Fraction(1)):
+        self.name, self.dtype, self.scale = name, dtype, Fraction(scale)
     def torch_dtype(self):
         import torch
         return {"float64": torch.float64, "float32": torch.float32, "bool": torch.bool}[self.dtype]
@@ -38,10 +38,10 @@ class SR:
     # spec value -> implementation scalar
     def wconv(self, v):
         if self.name == "real":
-            return math.inf if v == "inf" else float(v)
+            return math.inf if v == "inf" else float(v * self.scale)
         if self.name == "log":
             if v == "inf": return math.inf
-            return -math.inf if v == 0 else math.log(float(v))
+            return -math.inf if v == 0 else math.log(float(v * self.scale))
         if self.name == "viterbi":
             m = VIT_MAP[v]
             return -math.inf if m is None else (math.inf if m == "inf" else float(m))
@@ -49,7 +49,7 @@ class SR:
     # spec value -> model wire value
     def wwire(self, v):
         if self.name in ("real", "log"):
-            return None if v == "inf" else Fraction(v)
+            return None if v == "inf" else Fraction(v) * self.scale
         if self.name == "viterbi":
             m = VIT_MAP[v]
             return (0, Fraction(0)) if m is None else ((2, Fraction(0)) if m == "inf" else (1, Fraction(m)))
@@ -59,7 +59,12 @@ class SR:
     def atol(self):
         return Fraction(1, 10**12) if self.dtype == "float64" else Fraction(1, 10**5)
     # implementation output scalar -> wire observation
-    def obs(self, x):
+    def obs(self, x, rtol=None, atol=None):
+        if rtol is not None:
+            old = (self.rtol, self.atol)
+            self.rtol, self.atol = (lambda: Fraction(rtol)), (lambda: Fraction(atol))
+            try: return self.obs(x)
+            finally: self.rtol, self.atol = old
         if self.name == "bool":
             return bool(x)
         x = float(x)
@@ -73,9 +78,9 @@ class SR:
             if x == math.inf: return (Fraction(0), None)
             if x == -math.inf: return (Fraction(0), Fraction(0))
             # exp of a float: enclose with a relative tolerance (exp itself is rounded)
-            if x > 700: raise ValueError("log value too large to exponentiate")
-            f = Fraction(math.exp(x)); tol = self.atol() * 0 + (self.rtol() * 4) * f
-            if f == 0:   # underflow: accept anything below 1e-300
+            if x > 700: return (Fraction(0), None)    # astronomically large: read as +inf
+            f = Fraction(math.exp(x)); tol = self.atol() + (self.rtol() * 4) * f
+            if f == 0 and rtol is None:   # underflow: accept anything below 1e-300
                 return (Fraction(0), Fraction(1, 10**300))
             return (f - tol, f + tol)
         if self.name == "viterbi":
